@@ -21,18 +21,19 @@ PID = "C11"
 
 def model():
     mcm = '---- MODULE MCB ----\nEXTENDS Blocking\nCS == [a |-> "pub2", b |-> "sub", d |-> "disconnect"]\nCP == [a |-> "pub1", b |-> "ping"]\n====\n'
-    base = ("SPECIFICATION Spec\nCONSTANTS\n Calls <- %s\n ConnectInFlight = %s\n BugLockIgnoresCtx = %s\n BugNoConnClosedArm = %s\nCHECK_DEADLOCK FALSE\n"
-            "INVARIANTS CtxErrorReported DoneOnlyIfEnded\nPROPERTIES CancelledReturns ClosedReturnsAll ConnectReturns ReaderExits\n")
+    base = ("SPECIFICATION Spec\nCONSTANTS\n Calls <- %s\n ConnectInFlight = %s\n BugLockIgnoresCtx = %s\n BugNoConnClosedArm = %s\n BugCloseNoopAfterDisc = %s\nCHECK_DEADLOCK FALSE\n"
+            "INVARIANTS CtxErrorReported DoneOnlyIfEnded CloseEnds\nPROPERTIES CancelledReturns ClosedReturnsAll ConnectReturns ReaderExits\n")
     states = gen = 0
     cases = None
     for calls in ("CS", "CP"):
         for inflight in ("TRUE", "FALSE"):
-            r = vlib.tlc_ok(vlib.tlc("MCB", cfg="MCB.cfg", files={"MCB.tla": mcm, "MCB.cfg": base % (calls, inflight, "FALSE", "FALSE")}, workers=4, timeout=300), "Blocking model")
+            r = vlib.tlc_ok(vlib.tlc("MCB", cfg="MCB.cfg", files={"MCB.tla": mcm, "MCB.cfg": base % (calls, inflight, "FALSE", "FALSE", "FALSE")}, workers=4, timeout=300), "Blocking model")
             states += r.states
             gen += r.generated
             cases = cases or vlib.ndjson_read(os.path.join(r.dir, "blocking_cases.ndjson"))
     nv = {}
-    for bug, args in (("BugLockIgnoresCtx(F13, the code as it is)", ("CS", "TRUE", "TRUE", "FALSE")), ("BugNoConnClosedArm", ("CS", "FALSE", "FALSE", "TRUE"))):
+    for bug, args in (("BugLockIgnoresCtx(F13, the code as it is)", ("CS", "TRUE", "TRUE", "FALSE", "FALSE")), ("BugNoConnClosedArm", ("CS", "FALSE", "FALSE", "TRUE", "FALSE")),
+                      ("BugCloseNoopAfterDisc", ("CS", "FALSE", "FALSE", "FALSE", "TRUE"))):
         rb = vlib.tlc("MCB", cfg="MCB.cfg", files={"MCB.tla": mcm, "MCB.cfg": base % args}, workers=1, timeout=300)
         if not rb.violated:
             raise vlib.Infra("non-vacuity: %s not refuted" % bug)
